@@ -43,7 +43,8 @@ class TopocentricFrame(frames.Frame):
 
         from ..propagators.listeners import stations_listeners, Listener
 
-        listeners = kwargs.setdefault("listeners", [])
+        # work on a copy: the caller's list must not grow at each call
+        listeners = kwargs["listeners"] = list(kwargs.get("listeners", []))
         events = kwargs.pop("events", None)
         event_classes = tuple()
 
